@@ -45,12 +45,17 @@ func (e *symEnv) mapSet(s ast.Stmt) (string, bool) {
 
 type symEnv struct {
 	inLoop bool
+	// fork: a block that assigns to outer variables is translated with the rest of the statement list
+	// inlined under it (the rest must end in a return), and the rest is translated again for the other path
+	fork bool
+	// tail: a recogniser for a final run of statements outside the language, rendered as one outcome
+	tail func(e *symEnv, rest []ast.Stmt) (string, bool)
 	val  map[string]string // variable -> symbolic expression
 	pred map[string]string // boolean variable (ok) -> predicate it stands for
 }
 
 func (e *symEnv) clone() *symEnv {
-	n := &symEnv{val: map[string]string{}, pred: map[string]string{}, inLoop: e.inLoop}
+	n := &symEnv{val: map[string]string{}, pred: map[string]string{}, inLoop: e.inLoop, fork: e.fork, tail: e.tail}
 	for k, v := range e.val {
 		n.val[k] = v
 	}
@@ -238,7 +243,21 @@ func (e *symEnv) stmts(list []ast.Stmt, where string) []string {
 		out = append(out, "DUnknown "+qfull(src(s)))
 	}
 	for i := 0; i < len(list); i++ {
+		if e.tail != nil {
+			if t, ok := e.tail(e, list[i:]); ok {
+				return append(out, t)
+			}
+		}
 		switch s := list[i].(type) {
+		case *ast.DeclStmt:
+			// var x string
+			if gd, ok := s.Decl.(*ast.GenDecl); ok && gd.Tok == token.VAR && len(gd.Specs) == 1 {
+				if vs, ok := gd.Specs[0].(*ast.ValueSpec); ok && len(vs.Names) == 1 && len(vs.Values) == 0 && src(vs.Type) == "string" {
+					e.val[vs.Names[0].Name] = `""`
+					continue
+				}
+			}
+			unknown(s)
 		case *ast.AssignStmt:
 			// x, err := call(...) followed by if err != nil { return "", err }
 			if len(s.Lhs) == 2 && len(s.Rhs) == 1 {
@@ -368,7 +387,12 @@ func (e *symEnv) stmts(list []ast.Stmt, where string) []string {
 				unknown(s)
 				continue
 			}
-			body := inner.stmts(s.Body.List, where)
+			var body []string
+			if e.fork {
+				body = inner.stmts(append(append([]ast.Stmt{}, s.Body.List...), list[i+1:]...), where)
+			} else {
+				body = inner.stmts(s.Body.List, where)
+			}
 			g := "[" + strings.Join(body, "; ") + "]"
 			for k := len(lits) - 1; k >= 0; k-- {
 				if k == len(lits)-1 {
@@ -380,6 +404,9 @@ func (e *symEnv) stmts(list []ast.Stmt, where string) []string {
 			// assignments made inside the block to variables of the outer environment are not tracked:
 			// only fresh bindings are allowed inside (checked: the body rebinds no outer variable)
 			for k := range inner.val {
+				if e.fork {
+					break
+				}
 				if _, outer := e.val[k]; outer && inner.val[k] != e.val[k] {
 					noteUnknown(where, "a block rebinds the outer variable "+k)
 					g = "DUnknown " + qfull("rebinding of "+k)
@@ -446,6 +473,36 @@ func loopBodyOf(f *ast.File, name, rangeX string, nth int, where string) string 
 	return "[DUnknown \"missing\"]"
 }
 
+const restoreIdentSelectorTail = `out := &ast.SelectorExpr{} | r.Ast.Nodes[n] = out | r.Dst.Nodes[out] = n | r.applySpace(n, "Before", n.Decs.Before) | r.applyDecorations(out, "Start", n.Decs.Start, false) | x := dst.NewIdent(name) | out.X = r.restoreNode(x, "SelectorExpr", "X", "Expr", allowDuplicate).(ast.Expr) | r.cursor += token.Pos(len(token.PERIOD.String())) | r.applyDecorations(out, "X", n.Decs.X, false) | sel := dst.NewIdent(n.Name) | out.Sel = r.restoreNode(sel, "SelectorExpr", "Sel", "Ident", allowDuplicate).(*ast.Ident) | r.applyDecorations(out, "End", n.Decs.End, true) | r.applySpace(n, "After", n.Decs.After) | r.Dst.Nodes[out.X] = n | r.Dst.Nodes[out.Sel] = n | delete(r.Ast.Nodes, x) | delete(r.Ast.Nodes, sel) | return out`
+
+func restoreIdentProgram(f *ast.File) string {
+	where := "restorer.go restoreIdent"
+	for _, d := range f.Decls {
+		fd, ok := d.(*ast.FuncDecl)
+		if !ok || fd.Body == nil || fd.Name.Name != "restoreIdent" || fd.Recv == nil {
+			continue
+		}
+		env := &symEnv{val: map[string]string{}, pred: map[string]string{}, fork: true}
+		env.tail = func(e *symEnv, rest []ast.Stmt) (string, bool) {
+			if len(rest) == 0 || src(rest[0]) != "out := &ast.SelectorExpr{}" {
+				return "", false
+			}
+			var ts []string
+			for _, s := range rest {
+				ts = append(ts, src(s))
+			}
+			if strings.Join(ts, " | ") != restoreIdentSelectorTail {
+				noteUnknown(where, "the statements that build the selector differ from the model's selector_acts: "+strings.Join(ts, " | "))
+				return "DUnknown " + qfull("selector construction"), true
+			}
+			return "DRet (DVal " + qfull("selector:"+e.sym(ast.NewIdent("name"))) + ")", true
+		}
+		return "[" + strings.Join(env.stmts(fd.Body.List, where), ";\n   ") + "]"
+	}
+	noteUnknown(where, "function not found")
+	return "[DUnknown \"missing\"]"
+}
+
 func genDecisionSrc() {
 	var b strings.Builder
 	b.WriteString("(* GENERATED from /repo/decorator/resolver/{gotypes,goast}/resolver.go and decorator/decorator.go -- do not edit *)\nFrom Coq Require Import List String Bool.\nImport ListNotations.\nFrom DV Require Import Model.Decision.\nLocal Open Scope string_scope.\n\n")
@@ -468,6 +525,9 @@ func genDecisionSrc() {
 	fmt.Fprintf(&b, "Definition effalias_found_src : list dstmt :=\n  %s.\n\n", loopBodyOf(rf, "updateImports", "importsFound", 0, "restorer.go updateImports loops"))
 	fmt.Fprintf(&b, "Definition effalias_manual_src : list dstmt :=\n  %s.\n\n", loopBodyOf(rf, "updateImports", "r.Alias", 0, "restorer.go updateImports loops"))
 	fmt.Fprintf(&b, "Definition anonymous_required_src : list dstmt :=\n  %s.\n\n", loopBodyOf(rf, "updateImports", "effectiveAlias", 0, "restorer.go updateImports loops"))
-	fmt.Fprintf(&b, "Definition resolve_names_src : list dstmt :=\n  %s.\n", loopBodyOf(rf, "updateImports", "packagesInUseOrdered", 0, "restorer.go updateImports loops"))
+	fmt.Fprintf(&b, "Definition resolve_names_src : list dstmt :=\n  %s.\n\n", loopBodyOf(rf, "updateImports", "packagesInUseOrdered", 0, "restorer.go updateImports loops"))
+	// restoreIdent: which identifiers are restored as package.Name, under which name; the construction of
+	// the selector itself is one outcome (its statements are pinned)
+	fmt.Fprintf(&b, "Definition restoreident_src : list dstmt :=\n  %s.\n", restoreIdentProgram(rf))
 	writeIfChanged("DecisionSrc.v", b.String())
 }
